@@ -106,6 +106,32 @@ theorem results_with_same_members_equal (xs ys : List (Int × Int))
     (h : ∀ v, Mem (mk xs) v ↔ Mem (mk ys) v) : mk xs = mk ys :=
   canon_unique _ _ (mk_spec xs).1 (mk_spec ys).1 h
 
+/-! ### closure: every object reachable through the API (no hypotheses at all)
+
+`SetExpr` = constructor calls on arbitrary range lists combined with `| & - ^`;
+`eval` is what the code computes, `sem` the set-theoretic meaning. -/
+
+theorem reachable_canonical_and_denotes (e : SetExpr) :
+    Canon e.eval ∧ ∀ v, Mem e.eval v ↔ e.sem v := setExpr_spec e
+
+theorem reachable_contains (e : SetExpr) (v : Int) : contains e.eval v = true ↔ e.sem v := by
+  rw [contains_iff _ (setExpr_spec e).1 v, (setExpr_spec e).2 v]
+
+theorem reachable_iteration (e : SetExpr) :
+    List.Pairwise (· < ·) (iter e.eval) ∧ (∀ v, v ∈ iter e.eval ↔ e.sem v) ∧
+    cardinality e.eval = ((iter e.eval).length : Int) :=
+  ⟨iter_sorted _ (setExpr_spec e).1, fun v => by rw [mem_iter, (setExpr_spec e).2 v],
+   cardinality_eq_length _ (setExpr_spec e).1⟩
+
+/-- equal sets compare equal, however they were computed -/
+theorem reachable_eq (e₁ e₂ : SetExpr) : eq e₁.eval e₂.eval = true ↔ ∀ v, e₁.sem v ↔ e₂.sem v := by
+  simp only [eq, decide_eq_true_eq]
+  constructor
+  · intro h v; rw [← (setExpr_spec e₁).2 v, ← (setExpr_spec e₂).2 v, h]
+  · intro h
+    exact canon_unique _ _ (setExpr_spec e₁).1 (setExpr_spec e₂).1
+      (fun v => by rw [(setExpr_spec e₁).2 v, (setExpr_spec e₂).2 v, h v])
+
 /-! ### the executable specification used by the driver is the specification -/
 
 theorem spec_memB (rs : List (Int × Int)) (v : Int) : memB rs v = true ↔ Mem rs v := memB_iff rs v
@@ -128,5 +154,9 @@ example : contains [(1, 3), (7, 9)] 7 = true ∧ contains [(1, 3), (7, 9)] 3 = t
 example : iter [(-7, -7), (1, 3)] = [-7, 1, 2, 3] ∧ cardinality [(-7, -7), (1, 3)] = 4 := by decide +kernel
 -- the Canon hypothesis of the operation theorems matters: on an unsorted operand the loop misses {1,2}
 example : interLoop [(5, 6), (1, 2)] [(1, 2)] = [] := by decide +kernel
+-- (a - b) | (b - a) and (a | b) - (a & b) give the same object
+example : (SetExpr.sym (.lit [(1, 5), (9, 9)]) (.lit [(3, 8)])).eval
+    = (SetExpr.diff (.union (.lit [(1, 5), (9, 9)]) (.lit [(3, 8)])) (.inter (.lit [(1, 5), (9, 9)]) (.lit [(3, 8)]))).eval := by
+  decide +kernel
 
 end Props.C33
